@@ -69,6 +69,21 @@
 //! oracle always judges against the source CURRENTLY registered under the reported name
 //! (`history.*` in the histogram; the replay holds the ordered add calls with their outcomes).
 //!
+//! Special families (one size parameter each; a failing case shrinks to the smallest failing size):
+//! * deep call chains: 9, 10, 12 and 16 enclosing call sites x (includes only, nested components,
+//!   one recursive component, include / component alternating), some sites inside captures, plus a
+//!   seeded random handful of depths 1-16; EVERY enclosing site must be named by a note
+//!   (`callsite.depth.<n>`).
+//! * huge chunks: a one-expression line repeated so that the fault (undefined variable, bad
+//!   operand, failing include, failing component call) sits at instruction index 65534 … 65540
+//!   and beyond of ONE chunk (template body, block body, component body); instructions per line
+//!   are measured through `verif_hooks::stored_chunks_wire`. Sources above 20 000 bytes are not
+//!   sent to the model driver.
+//! * end of source: every open construct also with a comment as its LAST token (all whitespace
+//!   control variants, multi-line, as the only token after the opener, followed by nothing or
+//!   by whitespace only).
+//! Token spans are compared with the model raw AND whitespace-filtered (`lex-spans-filtered`).
+//!
 //! Syntax-site coverage: the message templates of every `syntax_error(…)` / `expect_token!` site
 //! are read at run time from `$VERIF_REPO` (default /repo) `tera/src/parsing/{parser,lexer}.rs`
 //! and matched against the messages the planted faults produced (`syntax-site.hit / .total`, the
